@@ -34,6 +34,7 @@ Theorem C06_failure_at_position :
   forall S G frags any vars fuel obj n id alias name args fsels t depth path fd cargs k,
     Nat.eqb name TYPENAME = false ->
     get_field_def S t name = Some fd ->
+    undeclared_args S t name args = [] ->
     answerer_of any obj = ANode n ->
     spec_args S vars id fd args (path ++ [PKey (key_of alias name)]) = (cargs, []) ->
     run_behav G n name cargs = (GNil, Some k) ->
@@ -42,8 +43,8 @@ Theorem C06_failure_at_position :
           repeat (mkErr (path ++ [PKey (key_of alias name)]) (LNode id) EResolver) (match k with 0 => 1 | _ => k end),
           [mkCall n name (canon_args cargs)]).
 Proof.
-  intros S G frags any vars fuel obj n id alias name args fsels t depth path fd cargs k Hn Hg Ha Hs Hr.
-  rewrite sem_field_eq. cbv zeta. rewrite Hn, Hg, Ha, Hs, Hr. simpl is_nil. cbv iota.
+  intros S G frags any vars fuel obj n id alias name args fsels t depth path fd cargs k Hn Hg Hu Ha Hs Hr.
+  rewrite sem_field_eq. cbv zeta. rewrite Hu, Hn, Hg, Ha, Hs, Hr. simpl is_nil. cbv iota.
   destruct k; reflexivity.
 Qed.
 Print Assumptions C06_failure_at_position.
